@@ -561,6 +561,14 @@ def check_match_direction(rep: Report, prog: Program, rid: str = "R05.9") -> Non
         key = f"_plan_conversion:_match_factors({d[0]}, {d[1]})"
         parent = getattr(c, "_parent", None)
         swapped = None
+        site: ast.AST = c
+        # the steps may first be named: `reverse_steps = _match_factors(end_factors, start_factors)`
+        if isinstance(parent, ast.Assign) and len(parent.targets) == 1 and isinstance(parent.targets[0], ast.Name):
+            lname = parent.targets[0].id
+            users = [n for n in ast.walk(fi.node) if isinstance(n, ast.Name) and n.id == lname and isinstance(n.ctx, ast.Load)]
+            if len(users) == 1:
+                site = users[0]
+                parent = getattr(site, "_parent", None)
         if isinstance(parent, ast.comprehension):
             comp = getattr(parent, "_parent", None)
             tgt = parent.target
@@ -572,7 +580,7 @@ def check_match_direction(rep: Report, prog: Program, rid: str = "R05.9") -> Non
                 same = (e1, e2) == (t1, t2)
                 if not swapped and not same:
                     swapped = None
-        elif isinstance(parent, ast.For) and parent.iter is c and isinstance(parent.target, ast.Tuple) and len(parent.target.elts) == 4:
+        elif isinstance(parent, ast.For) and parent.iter is site and isinstance(parent.target, ast.Tuple) and len(parent.target.elts) == 4:
             t1, t2 = ast.unparse(parent.target.elts[1]), ast.unparse(parent.target.elts[2])
             for a in ast.walk(parent):
                 if isinstance(a, ast.Tuple) and len(a.elts) == 4 and isinstance(a.ctx, ast.Load):
